@@ -1,13 +1,12 @@
 (* C04 -- property theorems only.  Each is closed by [exact] of a lemma proved in
    Proofs/C04*.v; Print Assumptions beneath each.
    TODO (unproved), compared on every generated case instead (see harness/c04/NOTES.md):
-     commit_spec            : flat acts -> wf -> obs (commit acts) = commit_spec acts
      generator_resumable    : wf -> obs (commit acts) = spec_exec acts   (re-entrant)
-     executed_monotone, one_per_discriminator, deferred_when_reached, commit never Crash / OutOfFuel *)
+     executed_monotone, one_per_discriminator, deferred_when_reached *)
 From Coq Require Import List NArith ZArith Bool.
 Import ListNotations.
 Require Import Verif.Lib.Wire Verif.Lib.C04Sort Verif.Gen.Facts_C04 Verif.Model.C04.
-Require Import Verif.Proofs.C04 Verif.Proofs.C04_flat Verif.Proofs.C04_decide.
+Require Import Verif.Proofs.C04 Verif.Proofs.C04_flat Verif.Proofs.C04_decide Verif.Proofs.C04_safe Verif.Proofs.C04_groups Verif.Proofs.C04_spec.
 
 (* the regenerated facts say: both repairs are in place (every new action is tested against an
    already executed one; discarded actions leave remaining_actions) *)
@@ -76,14 +75,47 @@ Theorem C04_executed_discriminator : forall res d l i w,
 Proof. exact detect1_executed. Qed.
 Print Assumptions C04_executed_discriminator.
 
+(* execute_actions never calls list.remove on an absent action, and the fuel of [commit] suffices:
+   for every program, re-entrant ones included, whose action identities are pairwise distinct *)
+Theorem C04_commit_never_crashes : forall acts,
+  wf_ids acts = true -> fst (commit acts) <> Crash /\ fst (commit acts) <> OutOfFuel.
+Proof. exact (commit_safe cfg_current). Qed.
+Print Assumptions C04_commit_never_crashes.
+
 (* execute_actions on a program whose callables declare nothing is the plain recursion over the
-   order groups (no generator, no remaining_actions), unless it stops in Crash/OutOfFuel *)
+   order groups (no generator, no remaining_actions) *)
 Theorem C04_commit_flat_is_phase_recursion : forall acts,
-  flat acts = true ->
-  let r := commit acts in
-  fst r = Crash \/ fst r = OutOfFuel \/ r = run_groups cfg_current [] None (groups_of acts).
-Proof. exact (commit_flat cfg_current). Qed.
+  flat acts = true -> wf_ids acts = true ->
+  commit acts = run_groups cfg_current [] None (groups_of acts).
+Proof. exact (commit_flat_exact cfg_current). Qed.
 Print Assumptions C04_commit_flat_is_phase_recursion.
+
+(* THE PROPERTY'S FIRST SENTENCE for a single, non-re-entrant commit: execute_actions behaves exactly as the
+   declarative [commit_spec] -- phase after phase, the None-discriminated actions and, per discriminator, the
+   action of its minimal phase whose include chain is a strict prefix of all the others' run in declaration
+   order, the others are discarded silently; the first phase in which some discriminator has no such action
+   stops the commit with exactly those discriminators (earlier phases have run) *)
+Theorem C04_commit_spec : forall acts,
+  flat acts = true -> wf_ids acts = true -> wf_orders acts = true ->
+  obs (commit acts) = commit_spec acts.
+Proof. exact commit_spec_fixed. Qed.
+Print Assumptions C04_commit_spec.
+
+(* the meaning of [winner] used by commit_spec *)
+Theorem C04_winner_characterisation : forall l d w,
+  NoDup (map aid l) ->
+  (winner l d = Some w <->
+   In w l /\ D w = Some d /\
+   forall b, In b l -> D b = Some d ->
+     (ordkey w <= ordkey b)%Z /\ (aid w = aid b \/ strict_prefix (apath w) (apath b) = true)).
+Proof. exact winner_characterisation. Qed.
+Print Assumptions C04_winner_characterisation.
+
+(* the order groups are the phases in increasing order, each in declaration order *)
+Theorem C04_groups_are_phases : forall acts,
+  groups_of acts = map (fun p => (p, phase_group acts p)) (phases acts).
+Proof. exact groups_of_phases. Qed.
+Print Assumptions C04_groups_are_phases.
 
 (* an order group lying before the order already reached is refused ... *)
 Theorem C04_late_phase_refused : forall st order grp gs evs m,
